@@ -59,6 +59,9 @@ type AttrSpec struct {
 	FriendlyName string   `json:"friendly,omitempty"`
 	NameFormat   string   `json:"format,omitempty"`
 	Values       []string `json:"values"`
+	// Typed: every AttributeValue declares xmlns:xs and xmlns:xsi itself and carries
+	// xsi:type="xs:string" (what many IdP products write)
+	Typed bool `json:"typed,omitempty"`
 }
 
 type ProxySpec struct {
